@@ -125,14 +125,17 @@ theorem repLoop_mapVal {α β} (φ : α → β) (u : Nat → Inp → M → R α)
     intro idx i m acc
     unfold repLoop
     by_cases hmax : max = some idx
-    · simp only [hmax, if_true]; split <;> simp only [Res.mapVal_fail, Res.mapVal_ok, List.map_reverse]
+    · simp only [hmax, if_true, repDone_eq_of_length, List.length_map]
+      split <;> simp only [Res.mapVal_fail, Res.mapVal_ok, List.map_reverse]
     · simp only [hmax, if_false]
       rw [hu idx i m]
       cases u idx i m with
       | oof => rfl
       | fail m' =>
-        simp only [Res.mapVal_fail, restoreOnNone]
-        split <;> simp only [Res.mapVal_fail, Res.mapVal_ok, List.map_reverse]
+        simp only [Res.mapVal_fail, restoreOnNone, repDone_eq_of_length, List.length_map]
+        split
+        · simp only [Res.mapVal_fail]
+        · split <;> simp only [Res.mapVal_fail, Res.mapVal_ok, List.map_reverse]
       | ok i' m' a => simp only [Res.mapVal_ok, restoreOnNone]; exact ih _ _ _ (a :: acc)
 
 theorem arrayLoop_mapVal {α β} (φ : α → β) (f : Inp → M → R α) (f' : Inp → M → R β)
@@ -379,7 +382,7 @@ theorem parse_eraseBoxed (G : NodeGrammar) (uni : Uni) :
           | fail m' => rfl
           | ok i' m' v => simp only [Res.mapVal_ok, Val.eraseBoxed_mk, List.map_cons, List.map_nil, Tag.eraseBoxed]
     | array k x =>
-      simp only [parse]
+      simp only [parse, arrayTryInto_arrayLoop]
       have := arrayLoop_mapVal Val.eraseBoxed _ _ (ih inh x) k i m []
       simp only [List.map_nil] at this
       rw [this]
@@ -1284,19 +1287,24 @@ theorem choiceLoop_fail_stk {α} (f : Node → Inp → M → R α) :
 
 theorem GenOpt.repLoop_sim (u1 u2 : Nat → Inp → M → R Val) (hu : ∀ idx i m, RelT G1 G2 (u1 idx i m) (u2 idx i m))
     (min : Nat) (max : Option Nat) :
-    ∀ budget idx i m acc1 acc2 pre, pre ++ tokensList G1 acc1.reverse = tokensList G2 acc2.reverse →
+    ∀ budget idx i m acc1 acc2 pre, acc1.length = acc2.length →
+      pre ++ tokensList G1 acc1.reverse = tokensList G2 acc2.reverse →
       RelL G1 G2 pre (repLoop u1 min max budget idx i m acc1) (repLoop u2 min max budget idx i m acc2) := by
   intro budget
   induction budget with
   | zero => intros; exact RelW.oof_left _
   | succ b ih =>
-    intro idx i m acc1 acc2 pre hacc
-    unfold repLoop
-    by_cases hmax : max = some idx
-    · simp only [hmax, if_true]
+    intro idx i m acc1 acc2 pre hlen hacc
+    have hdone : ∀ m : M, RelL G1 G2 pre (repDone min max i m acc1) (repDone min max i m acc2) := by
+      intro m
+      simp only [repDone_eq_of_length, hlen]
       split
       · simp only [RelW]
       · exact ⟨rfl, rfl, hacc⟩
+    unfold repLoop
+    by_cases hmax : max = some idx
+    · simp only [hmax, if_true]
+      rw [← hmax]; exact hdone m
     · simp only [hmax, if_false]
       rcases (hu idx i m).cases with h1 | ⟨m', h1, h2⟩ | ⟨i', m', a, b, h1, h2, hab⟩
       · rw [h1]; exact RelW.oof_left _
@@ -1304,10 +1312,10 @@ theorem GenOpt.repLoop_sim (u1 u2 : Nat → Inp → M → R Val) (hu : ∀ idx i
         simp only [restoreOnNone]
         split
         · simp only [RelW]
-        · exact ⟨rfl, rfl, hacc⟩
+        · exact hdone _
       · rw [h1, h2]
         simp only [restoreOnNone]
-        exact ih _ i' m' _ _ pre (acc_step G1 G2 hacc hab)
+        exact ih _ i' m' _ _ pre (by simp only [List.length_cons, hlen]) (acc_step G1 G2 hacc hab)
 
 theorem arrayLoop_sim (f1 f2 : Inp → M → R Val) (h : ∀ i m, RelT G1 G2 (f1 i m) (f2 i m)) :
     ∀ k i m acc1 acc2 pre, pre ++ tokensList G1 acc1.reverse = tokensList G2 acc2.reverse →
@@ -1473,7 +1481,7 @@ theorem parse_sim (hG : GRel G1 G2) :
       rename_i sk mn mx x y
       simp only [parse]
       rcases (GenOpt.repLoop_sim G1 G2 _ _ (repUnitP_sim G1 G2 _ _ _ _ _ _ (skipCount sk inh)
-          (ih _ _ hG.skipped false) (ih _ _ hab inh) (tok_dflt G1) (tok_dflt G2)) mn mx n 0 i m [] [] [] rfl).cases
+          (ih _ _ hG.skipped false) (ih _ _ hab inh) (tok_dflt G1) (tok_dflt G2)) mn mx n 0 i m [] [] [] rfl rfl).cases
         with h1 | ⟨m', h1, h2⟩ | ⟨i', m', l1, l2, h1, h2, hl⟩
       · rw [h1]; exact RelW.oof_left _
       · rw [h1, h2]; simp only [RelW]
@@ -1484,7 +1492,7 @@ theorem parse_sim (hG : GRel G1 G2) :
       rename_i x y
       simp only [parse]
       rcases (GenOpt.repLoop_sim G1 G2 (fun _ i m => parse G1 uni n inh x i m) (fun _ i m => parse G2 uni n inh y i m)
-          (fun _ i m => ih _ _ hab inh i m) 0 none (atomicBudget n) 0 i { m with trk := Tracker.new i } [] [] [] rfl).cases
+          (fun _ i m => ih _ _ hab inh i m) 0 none (atomicBudget n) 0 i { m with trk := Tracker.new i } [] [] [] rfl rfl).cases
         with h1 | ⟨m', h1, h2⟩ | ⟨i', m', l1, l2, h1, h2, hl⟩
       · rw [h1]; exact RelW.oof_left _
       · rw [h1, h2]; simp only [RelW]
@@ -1542,7 +1550,7 @@ theorem parse_sim (hG : GRel G1 G2) :
             exact ⟨rfl, rfl, by simp only [tokens, tokensList, List.append_nil, hcp, hv]⟩
     | array hab =>
       rename_i k x y
-      simp only [parse]
+      simp only [parse, arrayTryInto_arrayLoop]
       rcases (arrayLoop_sim G1 G2 _ _ (ih _ _ hab inh) k i m [] [] [] rfl).cases
         with h1 | ⟨m', h1, h2⟩ | ⟨i', m', l1, l2, h1, h2, hl⟩
       · rw [h1]; exact RelW.oof_left _
